@@ -79,7 +79,15 @@ def run(rep, build, tier, seed):
             if d0:
                 corr.append((name, [], d0))
             plans = fc.plans_for(M0["trace"], tier, M0["ops"])
+            after_first = {}
             for pl in plans:
+                if len(pl) == 2 and pl[1][1].startswith("full"):
+                    # 'device full' only exists for a write: after the first fault the operation at that index may be another one
+                    if pl[0] not in after_first:
+                        after_first[pl[0]] = fsrun.run_model(m, scn, f, [pl[0]])["trace"]
+                    tr = after_first[pl[0]]
+                    if pl[1][0] >= len(tr) or not tr[pl[1][0]].startswith("write"):
+                        continue
                 I, M, diffs = fc.compare(m, base, scn, f, pl)
                 nplans += 1
                 first_w = next((i for i, t in enumerate(M0["trace"]) if t.startswith("fopen-w")), 10 ** 6)
